@@ -65,6 +65,16 @@ def gen_cases(rng, tier, rnd):
             a = gentm.slow_tm(rng)              # verdicts decided after hundreds of steps, within the default budget
             c['spec'], c['rank'] = gentm.rename(a, rng)
             c['steps'] = [{'n': rng.choice([0, 1, 1, 2]), 'max_steps': rng.choice([1000, 1000, 300, 600])} for _ in range(2)]
+        elif kind == 'tm' and rng.random() < 0.15:
+            a = gentm.scanner_tm(rng)           # read-only, right-moving; keeps working on the blank cells after its input
+            c['spec'], c['rank'] = gentm.rename(a, rng)
+            c['steps'] = [{'n': rng.choice([0, 1, 2, 3]), 'max_steps': rng.choice([1000, 1000, 20, 5, 3])} for _ in range(3)]
+        elif kind == 'tm' and rng.random() < 0.1:
+            # words of one length of which one runs for ever and another is accepted after most of the step budget
+            b = rng.choice([1000, 1000, 300, 100])
+            a = gentm.slow_or_loop_tm(rng, budget=b)
+            c['spec'], c['rank'] = gentm.rename(a, rng)
+            c['steps'] = [{'n': rng.choice([1, 1, 2]), 'max_steps': b} for _ in range(2)]
         elif kind == 'tm':
             a = gentm.abstract_tm(rng)
             c['spec'], c['rank'] = gentm.rename(a, rng)
